@@ -100,3 +100,112 @@ func VH_RT_xz() {
 		vAssert(int64(len(blocks)) == (int64(n)+blockSize-1)/blockSize, "number of blocks = ceil(n / BlockSize)")
 	}
 }
+
+// ---- GEN-xz (C03): files laid out by the reference writer ------------------
+
+// specXZEncode writes one stream: for each block an LZMA2 payload (already
+// encoded) with its content, optional size fields, the given check.
+func specXZEncode(ck byte, dictCode byte, payloads, contents [][]byte, withSizes []bool) []byte {
+	var z []byte
+	hd := []byte{0xfd, '7', 'z', 'X', 'Z', 0, 0, ck, 0, 0, 0, 0}
+	c := specCRC32(hd[6:8])
+	hd[8], hd[9], hd[10], hd[11] = byte(c), byte(c>>8), byte(c>>16), byte(c>>24)
+	z = append(z, hd...)
+	type rec struct{ unpadded, uncompressed uint64 }
+	var recs []rec
+	for i, p := range payloads {
+		var bh []byte
+		bh = append(bh, 0, 0)
+		if withSizes[i] {
+			bh[1] |= 0xc0
+			bh = specPutVarint(bh, uint64(len(p)))
+			bh = specPutVarint(bh, uint64(len(contents[i])))
+		}
+		bh = append(bh, 0x21, 1, dictCode)
+		for len(bh)%4 != 0 {
+			bh = append(bh, 0)
+		}
+		bh[0] = byte((len(bh)+4)/4 - 1)
+		c := specCRC32(bh)
+		bh = append(bh, byte(c), byte(c>>8), byte(c>>16), byte(c>>24))
+		z = append(z, bh...)
+		z = append(z, p...)
+		for k := specPad(int64(len(p))); k > 0; k-- {
+			z = append(z, 0)
+		}
+		sum := specCheck(ck, contents[i])
+		z = append(z, sum...)
+		recs = append(recs, rec{uint64(len(bh) + len(p) + len(sum)), uint64(len(contents[i]))})
+	}
+	idx := []byte{0}
+	idx = specPutVarint(idx, uint64(len(recs)))
+	for _, r := range recs {
+		idx = specPutVarint(idx, r.unpadded)
+		idx = specPutVarint(idx, r.uncompressed)
+	}
+	for len(idx)%4 != 0 {
+		idx = append(idx, 0)
+	}
+	c = specCRC32(idx)
+	idx = append(idx, byte(c), byte(c>>8), byte(c>>16), byte(c>>24))
+	z = append(z, idx...)
+	bs := uint32(len(idx)/4 - 1)
+	ft := []byte{0, 0, 0, 0, byte(bs), byte(bs >> 8), byte(bs >> 16), byte(bs >> 24), 0, ck, 'Y', 'Z'}
+	c = specCRC32(ft[4:10])
+	ft[0], ft[1], ft[2], ft[3] = byte(c), byte(c>>8), byte(c>>16), byte(c>>24)
+	return append(z, ft...)
+}
+
+func specPutVarint(p []byte, v uint64) []byte {
+	for v >= 0x80 {
+		p = append(p, byte(v)|0x80)
+		v >>= 7
+	}
+	return append(p, byte(v))
+}
+
+func VH_GEN_xz() {
+	ck := vChecks[vConcretize(int(vNondetU8("check"))%4)]
+	vAssume(int(ck)%vShards() == vShardIdx()%4 || vShards() == 1)
+	nb := vConcretize(int(vNondetU8("blocks")) % 3)
+	dictCode := []byte{0, 3, 17}[vConcretize(int(vNondetU8("dictCode"))%3)]
+	var payloads, contents [][]byte
+	var sizes []bool
+	var all []byte
+	for i := 0; i < nb; i++ {
+		var chunks []lzma.VSpecLZMA2Chunk
+		switch vConcretize(int(vNondetU8("payload")) % 4) {
+		case 0: // empty block: only the end chunk
+		case 1:
+			chunks = []lzma.VSpecLZMA2Chunk{{Kind: 1, Raw: []byte("raw!")}}
+		case 2:
+			chunks = []lzma.VSpecLZMA2Chunk{{Kind: 6, LC: 3, LP: 0, PB: 2, Ops: []lzma.VSpecOp{{Kind: 0, Byte: 'x'}, {Kind: 1, Dist: 0, Len: 5}, {Kind: 2}}},
+				{Kind: 2, Raw: []byte("yz")}, {Kind: 4, Ops: []lzma.VSpecOp{{Kind: 1, Dist: 7, Len: 4}, {Kind: 3, Rep: 1, Len: 2}}}}
+		case 3:
+			chunks = []lzma.VSpecLZMA2Chunk{{Kind: 6, LC: 0, LP: 4, PB: 4, Ops: []lzma.VSpecOp{{Kind: 0, Byte: 0}, {Kind: 2}, {Kind: 0, Byte: 1}}},
+				{Kind: 5, LC: 4, LP: 0, PB: 0, Ops: []lzma.VSpecOp{{Kind: 1, Dist: 2, Len: 3}}}}
+		}
+		p, c, ok := lzma.VSpecLZMA2Encode(chunks)
+		vAssert(ok, "generator produces a legal payload")
+		payloads = append(payloads, p)
+		contents = append(contents, c)
+		sizes = append(sizes, vNondetBool("withSizes"))
+		all = append(all, c...)
+	}
+	z := specXZEncode(ck, dictCode, payloads, contents, sizes)
+	ref, _, rok := specXZDecode(z)
+	vAssert(rok && bytes.Equal(ref, all), "reference decoder reads the reference writer")
+	// stream padding, reader window and source fragmentation: derived from the
+	// other choices in the quick tier, independent choices in the thorough tier
+	pad, dc, frag := nb%2, (nb+int(dictCode))%3, int(ck)%2
+	if vThorough() {
+		pad, dc, frag = vConcretize(int(vNondetU8("pad"))%2), vConcretize(int(vNondetU8("dictCap"))%3), vConcretize(int(vNondetU8("frag"))%2)
+	}
+	z = append(z, make([]byte, 4*pad)...)
+	cfg := ReaderConfig{DictCap: []int{0, 4096, 1 << 20}[dc]}
+	r, err := cfg.NewReader(&vSrc{data: z, end: len(z), frag: frag})
+	vAssert(err == nil, "valid file opens")
+	out, rerr := vReadAll(r, 5)
+	vAssert(rerr == io.EOF, "valid file ends cleanly")
+	vAssert(bytes.Equal(out, all), "decoded bytes = reference decoder's bytes")
+}
